@@ -63,3 +63,140 @@ pub mod udp_codec {
             .map(|b| b.to_vec())
     }
 }
+
+pub mod icmp {
+    use super::*;
+    use crate::http_datagram_codec::{DecodeResult, Decoder as _, Encoder as _};
+    use crate::{downstream, forwarder, http_icmp_codec, icmp_utils, net_utils};
+    use std::collections::LinkedList;
+    use std::net::IpAddr;
+
+    pub fn rfc1071_checksum(bytes: &[u8]) -> u16 {
+        net_utils::rfc1071_checksum(bytes)
+    }
+
+    /// (next protocol, payload)
+    pub fn skip_ipv4_header(packet: &[u8]) -> Option<(i32, Vec<u8>)> {
+        net_utils::skip_ipv4_header(Bytes::copy_from_slice(packet)).map(|(p, b)| (p, b.to_vec()))
+    }
+
+    pub fn skip_ipv6_header(packet: &[u8]) -> Option<(i32, Vec<u8>)> {
+        net_utils::skip_ipv6_header(Bytes::copy_from_slice(packet)).map(|(p, b)| (p, b.to_vec()))
+    }
+
+    /// Serialized echo request as the ICMP forwarder would send it
+    pub fn serialize_echo(v6: bool, identifier: u16, sequence_number: u16, data: &[u8]) -> Vec<u8> {
+        let echo = icmp_utils::Echo {
+            code: 0,
+            identifier,
+            sequence_number,
+            data: Bytes::copy_from_slice(data),
+        };
+        let m = if v6 {
+            icmp_utils::Message::V6(icmp_utils::v6::Message::EchoRequest(echo))
+        } else {
+            icmp_utils::Message::V4(icmp_utils::v4::Message::Echo(echo))
+        };
+        m.serialize().to_vec()
+    }
+
+    pub struct Request {
+        pub peer: IpAddr,
+        pub v6_message: bool,
+        pub identifier: u16,
+        pub sequence_number: u16,
+        pub ttl: u8,
+        pub data_len: usize,
+    }
+
+    /// Feeds chunks to the real request decoder the way DatagramDecoder::read does
+    pub fn decode_requests(chunks: &[Vec<u8>]) -> Vec<Vec<Request>> {
+        let mut decoder = http_icmp_codec::Decoder::new();
+        let mut out = vec![];
+        for c in chunks {
+            let mut got = vec![];
+            let mut pending: LinkedList<Bytes> = Default::default();
+            pending.push_back(Bytes::copy_from_slice(c));
+            while let Some(chunk) = pending.pop_front() {
+                match decoder.decode_chunk(chunk) {
+                    DecodeResult::WantMore => (),
+                    DecodeResult::Complete(d, tail) => {
+                        let d: downstream::IcmpDatagram = d;
+                        if !tail.is_empty() {
+                            pending.push_front(tail);
+                        }
+                        let (v6, echo) = match &d.message {
+                            icmp_utils::Message::V4(icmp_utils::v4::Message::Echo(e)) => (false, e),
+                            icmp_utils::Message::V6(icmp_utils::v6::Message::EchoRequest(e)) => {
+                                (true, e)
+                            }
+                            _ => unreachable!(),
+                        };
+                        got.push(Request {
+                            peer: d.meta.peer,
+                            v6_message: v6,
+                            identifier: echo.identifier,
+                            sequence_number: echo.sequence_number,
+                            ttl: d.ttl,
+                            data_len: echo.data.len(),
+                        });
+                    }
+                }
+            }
+            out.push(got);
+        }
+        out
+    }
+
+    pub struct Parsed {
+        pub type_id: u8,
+        pub code: u8,
+        pub len: usize,
+        /// (identifier, sequence number, data) of the echo request this message answers
+        pub responded: Option<(u16, u16, Vec<u8>)>,
+        /// the 7.4 record the encoder produces for this message coming from `peer`
+        pub encoded: Option<Vec<u8>>,
+    }
+
+    /// Deserialises a raw ICMP (v4) / ICMPv6 message as `IcmpForwarder::listen_v4/v6` do, then
+    /// runs the request matching and the reply encoder on it.
+    pub fn parse_message(v6: bool, peer: IpAddr, packet: &[u8]) -> Result<Parsed, String> {
+        let packet = Bytes::copy_from_slice(packet);
+        let message: icmp_utils::Message = if v6 {
+            icmp_utils::v6::Message::deserialize(packet)
+                .map_err(|e| format!("{:?}", e))?
+                .into()
+        } else {
+            icmp_utils::v4::Message::deserialize(packet)
+                .map_err(|e| format!("{:?}", e))?
+                .into()
+        };
+        let responded = message
+            .responded_echo_request()
+            .map(|e| (e.identifier, e.sequence_number, e.data.to_vec()));
+        let encoded = http_icmp_codec::Encoder::default()
+            .encode_packet(&forwarder::IcmpDatagram {
+                meta: forwarder::IcmpDatagramMeta { peer },
+                message: message.clone(),
+            })
+            .map(|b| b.to_vec());
+        Ok(Parsed {
+            type_id: message.type_id(),
+            code: message.code(),
+            len: message.len(),
+            responded,
+            encoded,
+        })
+    }
+
+    /// `Echo == Echo` as used for the keys of the reply-waiter table
+    pub fn echo_keys_equal(a: (u16, u16, &[u8]), b: (u16, u16, &[u8])) -> bool {
+        let mk = |x: (u16, u16, &[u8])| icmp_utils::Echo {
+            code: 0,
+            identifier: x.0,
+            sequence_number: x.1,
+            data: Bytes::copy_from_slice(x.2),
+        };
+        mk(a) == mk(b)
+    }
+}
